@@ -180,6 +180,8 @@ impl Cache {
         name: &DomainName,
         qtype: QueryType,
     ) -> Vec<ResourceRecord> {
+        #[cfg(resolved_verif)]
+        use crate::verif::clock::Instant;
         let now = Instant::now();
         let mut rrs = Vec::new();
         match qtype {
@@ -330,6 +332,8 @@ impl<K1: Clone + Eq + Hash, K2: Copy + Eq + Hash, V: PartialEq> PartitionedCache
         &mut self,
         partition_key: &K1,
     ) -> Option<&HashMap<K2, Vec<(V, Instant)>>> {
+        #[cfg(resolved_verif)]
+        use crate::verif::clock::Instant;
         if let Some(partition) = self.partitions.get_mut(partition_key) {
             partition.last_read = Instant::now();
             self.access_priority
@@ -349,6 +353,8 @@ impl<K1: Clone + Eq + Hash, K2: Copy + Eq + Hash, V: PartialEq> PartitionedCache
         partition_key: &K1,
         record_key: &K2,
     ) -> Option<&[(V, Instant)]> {
+        #[cfg(resolved_verif)]
+        use crate::verif::clock::Instant;
         if let Some(partition) = self.partitions.get_mut(partition_key) {
             if let Some(tuples) = partition.records.get(record_key) {
                 partition.last_read = Instant::now();
@@ -364,6 +370,8 @@ impl<K1: Clone + Eq + Hash, K2: Copy + Eq + Hash, V: PartialEq> PartitionedCache
     /// Insert a record into the cache, or reset the expiry time if already
     /// present.
     pub fn upsert(&mut self, partition_key: K1, record_key: K2, value: V, ttl: Duration) {
+        #[cfg(resolved_verif)]
+        use crate::verif::clock::Instant;
         let now = Instant::now();
         let expiry = now + ttl;
         let tuple = (value, expiry);
@@ -468,6 +476,8 @@ impl<K1: Clone + Eq + Hash, K2: Copy + Eq + Hash, V: PartialEq> PartitionedCache
     ///
     /// Returns the number of records removed.
     fn remove_expired_step(&mut self) -> usize {
+        #[cfg(resolved_verif)]
+        use crate::verif::clock::Instant;
         if let Some((partition_key, Reverse(expiry))) = self.expiry_priority.pop() {
             let now = Instant::now();
 
@@ -535,6 +545,78 @@ impl<K1: Clone + Eq + Hash, K2: Copy + Eq + Hash, V: PartialEq> PartitionedCache
         } else {
             0
         }
+    }
+}
+
+/// Read-only view of the whole cache state (verification hook).
+#[cfg(resolved_verif)]
+#[derive(Debug, Clone)]
+pub struct VerifPartition {
+    pub key: DomainName,
+    pub last_read_ns: u128,
+    pub next_expiry_ns: u128,
+    pub size: usize,
+    pub records: Vec<(RecordType, Vec<(RecordTypeWithData, u128)>)>,
+}
+
+#[cfg(resolved_verif)]
+#[derive(Debug, Clone)]
+pub struct VerifDump {
+    pub partitions: Vec<VerifPartition>,
+    pub access_priority: Vec<(DomainName, u128)>,
+    pub expiry_priority: Vec<(DomainName, u128)>,
+    pub current_size: usize,
+    pub desired_size: usize,
+}
+
+#[cfg(resolved_verif)]
+impl Cache {
+    pub fn verif_dump(&self) -> VerifDump {
+        use crate::verif::clock::ns_of;
+        VerifDump {
+            partitions: self
+                .inner
+                .partitions
+                .iter()
+                .map(|(k, p)| VerifPartition {
+                    key: k.clone(),
+                    last_read_ns: ns_of(p.last_read),
+                    next_expiry_ns: ns_of(p.next_expiry),
+                    size: p.size,
+                    records: p
+                        .records
+                        .iter()
+                        .map(|(rk, ts)| {
+                            (*rk, ts.iter().map(|(v, e)| (v.clone(), ns_of(*e))).collect())
+                        })
+                        .collect(),
+                })
+                .collect(),
+            access_priority: self
+                .inner
+                .access_priority
+                .iter()
+                .map(|(k, Reverse(t))| (k.clone(), ns_of(*t)))
+                .collect(),
+            expiry_priority: self
+                .inner
+                .expiry_priority
+                .iter()
+                .map(|(k, Reverse(t))| (k.clone(), ns_of(*t)))
+                .collect(),
+            current_size: self.inner.current_size,
+            desired_size: self.inner.desired_size,
+        }
+    }
+}
+
+#[cfg(resolved_verif)]
+impl SharedCache {
+    /// # Panics
+    ///
+    /// If the mutex has been poisoned.
+    pub fn verif_dump(&self) -> VerifDump {
+        self.cache.lock().expect(MUTEX_POISON_MESSAGE).verif_dump()
     }
 }
 
